@@ -16,6 +16,46 @@ MUTATORS = {"update", "append", "extend", "pop", "popitem", "clear", "sort", "re
 SKIP_METHODS = {"__init__", "set_params", "__setstate__", "__getstate__", "__repr__"}
 
 
+# module-level functions of the package, by name (same name in several modules: all of them are considered)
+_FUNCS = {}
+_MUT_MEMO = {}
+
+
+def load_functions(root=REPO + "/skactiveml"):
+    _FUNCS.clear()
+    _MUT_MEMO.clear()
+    for dp, dn, fs in os.walk(root):
+        if "tests" in dp.split(os.sep):
+            continue
+        for f in fs:
+            if f.endswith(".py") and not f.startswith("test_"):
+                tree = ast.parse(open(os.path.join(dp, f)).read())
+                for n in tree.body:
+                    if isinstance(n, ast.FunctionDef):
+                        _FUNCS.setdefault(n.name, []).append(n)
+
+
+def mutated_params(name, stack=()):
+    """names / positions of the parameters a module-level helper may mutate in place (directly, through
+    local aliases, or by handing them on to another helper): {(position, name)}"""
+    if name in _MUT_MEMO:
+        return _MUT_MEMO[name]
+    if name in stack or name not in _FUNCS:
+        return set()
+    out = set()
+    for fn in _FUNCS[name]:
+        args = [a.arg for a in fn.args.posonlyargs + fn.args.args] + [a.arg for a in fn.args.kwonlyargs]
+        me = MethodEffects(stack + (name,))
+        me.local_alias = {a: {"@" + a} for a in args}
+        for e in me.run(fn):
+            if e[0] == "M" and e[1].startswith("@"):
+                nm = e[1][1:]
+                out.add((args.index(nm) if nm in [a.arg for a in fn.args.posonlyargs + fn.args.args] else None, nm))
+    if not stack:
+        _MUT_MEMO[name] = out
+    return out
+
+
 def _self_attr(node):
     """name a if node is `self.a`."""
     if isinstance(node, ast.Attribute) and isinstance(node.value, ast.Name) and node.value.id == "self":
@@ -62,7 +102,8 @@ def _alias_sources(value, local_alias):
 
 
 class MethodEffects(ast.NodeVisitor):
-    def __init__(self):
+    def __init__(self, stack=()):
+        self.stack = stack        # helper functions being analysed (recursion guard)
         self.scalars = set()      # attributes validated by check_scalar(self.a, ...): int/float/bool, i.e. immutable objects
         self.effects = set()      # ("W", a) ("M", a) ("A", dst, src) ("C", m) ("U",)
         self.local_alias = {}     # local name -> set of self attrs
@@ -151,6 +192,17 @@ class MethodEffects(ast.NodeVisitor):
             a0 = _self_attr(node.args[0])
             if a0 is not None:
                 self.scalars.add(a0)
+        if isinstance(f, ast.Name) and f.id in _FUNCS:
+            # a module-level helper that mutates one of its parameters in place: the effect reaches whatever the argument aliases
+            for pos, nm in mutated_params(f.id, self.stack):
+                arg = None
+                if pos is not None and pos < len(node.args) and not any(isinstance(a, ast.Starred) for a in node.args[:pos + 1]):
+                    arg = node.args[pos]
+                for k in node.keywords:
+                    if k.arg == nm:
+                        arg = k.value
+                for src in _alias_sources(arg, self.local_alias):
+                    self.effects.add(("M", src))
         if isinstance(f, ast.Name):
             if f.id in ("exec", "eval", "vars", "globals", "locals") and (f.id != "vars" or any(isinstance(a, ast.Name) and a.id == "self" for a in node.args)):
                 if f.id in ("exec", "eval") or f.id == "vars":
@@ -240,6 +292,7 @@ def params_of(classes, name):
 
 
 def analyse(root=REPO + "/skactiveml"):
+    load_functions(root)
     classes = load_package(root)
     table = []
     for cname in sorted(classes):
